@@ -1,13 +1,20 @@
 (* C14 — After a flush, what was appended so far survives a cut.
-   Proved here (EncWriterProofs.v, EncFlushProofs.v, FlushProofs.v): the encryption layer and
-   the archive writer's block stream.  flush() of the encryption layer only forwards
+   Part 1 (EncWriterProofs.v, EncFlushProofs.v, FlushProofs.v): the encryption layer and the
+   archive writer's block stream.  flush() of the encryption layer only forwards
    (encrypt.rs:297-299), so it returns at a point "between writes": the bytes handed down are
    ew_out of a state satisfying EwInv.
-   NOT proved here: (1) the last step from "the fail-safe top layer delivers the block stream
-   w_out, in which every append made so far is a complete FileContent block at a block
-   boundary" to "repair recovers these bytes" is the repair work package's theorem (repair of
-   any prefix of a block stream); hence the suffix _partial.  (2) The compression layer
-   (brotli flush semantics, fail-safe decompressor) is not modelled: oracle only. *)
+   Part 2 (ComposeWriterRun.v, ComposeFlush.v): end to end for a run that ends at the flush.
+   Part 3 (CompFailSafe*.v): the fail-safe decompression reader at a flush point.
+   Part 4 (ComposeFlushAt.v, ComposeFlushComp.v, RepairMask.v, ComposeFsComp.v): THE PROPERTY
+   AS STATED, one theorem per layer combination — C14_flush_durable_{plain, enc, enc_auth,
+   comp, comp_enc, comp_enc_auth}: any call list with a flush at any position, the destination
+   bytes when that flush returned, any source behaving as a cursor over them, the matching
+   fail-safe readers, repair.
+   What enters as an explicit premise, not as a theorem: for the compressed combinations the
+   ENCODER side of flush (`fs_spec D bs w = w_out s`: what the compression layer had been
+   handed is decodable from what it had emitted — brotli's flush contract) and the DecoderLaws
+   of CompFailSafeProofs.v (brotli is external); the calls before the flush must be `clean`
+   (no short source: a short source leaves a block whose announced length is wrong, D8). *)
 From MLA Require Import Base Stream Blocks Writer EncLayer EncWriter EncWriterProofs EncFlushProofs FlushProofs Inst.
 Open Scope N_scope.
 
@@ -49,9 +56,10 @@ Theorem C14_wstep_out_prefix :
     wstep FNMAX TS TC TA TE H order s o = (s', r) -> prefix (w_out s) (w_out s').
 Proof. exact wstep_out_prefix. Qed.
 
-(* encryption on, no compression: from the flushed bytes the unauthenticated fail-safe reader
-   yields the block stream, which holds every successful append as a complete content block *)
-Theorem C14_flush_durable_enc_partial :
+(* encryption on, no compression, at the level of the LAYER OUTPUT: from the flushed bytes the
+   unauthenticated fail-safe reader yields the block stream, which holds every successful
+   append as a complete content block (the end-to-end statements are in part 4) *)
+Theorem C14_flush_enc_layer_output :
   forall FNMAX TS TC TA TE H order CHUNK TAG CIPHERBUF, 0 < CHUNK -> 0 < TAG ->
   forall ks tagc, (forall i c, len (tagc i c) = TAG) ->
   forall ops s rs pieces fuelw es fuel n,
@@ -66,8 +74,8 @@ Theorem C14_flush_durable_enc_partial :
         In (BContent id (takeN size src)) bl.
 Proof. exact flush_durable_enc. Qed.
 
-(* authenticated mode: a prefix holding at least everything in completed chunks *)
-Theorem C14_flush_durable_enc_auth_partial :
+(* authenticated mode, layer output: a prefix holding at least everything in completed chunks *)
+Theorem C14_flush_enc_auth_layer_output :
   forall CHUNK TAG CIPHERBUF, 0 < CHUNK -> 0 < TAG ->
   forall ks tagc, (forall i c, len (tagc i c) = TAG) ->
   forall pieces fuelw es fuel n p,
@@ -116,7 +124,7 @@ Example C14_example_full_chunk :
   end.
 Proof. vm_compute. repeat split; reflexivity. Qed.
 
-(* the hypotheses of C14_flush_durable_enc_partial are met by a concrete run *)
+(* the hypotheses of C14_flush_enc_layer_output are met by a concrete run *)
 Example C14_example_archive :
   let ops := [OStart [97]; OAppend 0 70 (map N.of_nat (seq 0 70)); OStart [98]; OAppend 1 2 [7; 8]; OAppend 0 0 []; OFlush] in
   let '(s, rs) := wrun 48 0 1 254 255 (fun b => [len b]) (fun f => f) w_init ops in
@@ -130,20 +138,20 @@ Proof.
   repeat constructor; cbn; try discriminate.
 Qed.
 
-Check C14_flush_durable_enc_partial.
+Check C14_flush_enc_layer_output.
 Print Assumptions C14_ew_write_all_spec.
 Print Assumptions C14_flush_prefix_unauth.
 Print Assumptions C14_flush_prefix_auth.
 Print Assumptions C14_auth_len_bounds.
 Print Assumptions C14_wstep_out_prefix.
-Print Assumptions C14_flush_durable_enc_partial.
-Print Assumptions C14_flush_durable_enc_auth_partial.
+Print Assumptions C14_flush_enc_layer_output.
+Print Assumptions C14_flush_enc_auth_layer_output.
 Print Assumptions C14_wrun_blocks.
 
 
 (* ====================================================================================
    END TO END for {no layer, encryption} (ComposeWriterRun.v, ComposeFlush.v): the step
-   that C14_flush_durable_enc_partial left open.  For ANY clean run of the writer model
+   that C14_flush_enc_layer_output leaves open.  For ANY clean run of the writer model
    (calls in any order, refused calls included; no finalize, no short source; names valid
    UTF-8 and sizes < 2^64 as the types guarantee; fewer than 2^64 files):
      * the block stream is the serialisation of a well-formed block list (wf_blocks) whose
@@ -155,7 +163,7 @@ Print Assumptions C14_wrun_blocks.
        (w_files) exactly `appended id`: nothing appended before the flush is lost;
      * authenticated mode: exactly the content bytes lying in the first m bytes of the block
        stream, ew_ctr * CHUNK <= m (all completed chunks; all of chunk 0, D2).
-   Compression remains unmodelled. *)
+   Compression: parts 3 and 4. *)
 From MLA Require Import Repair RepairSpec RepairPure RepairProofs2 RepairProofs5 RepairProofs6 EncAuthFs Run
   ComposeRdOnly ComposeRepair ComposeWriterRun ComposeFlush.
 
@@ -336,3 +344,454 @@ Qed.
 
 Print Assumptions C14_fs_comp_flush.
 Print Assumptions C14_fs_comp_example.
+
+(* ====================================================================================
+   PART 4 — THE PROPERTY AS STATED, per layer combination (ComposeFlushAt.v,
+   ComposeFlushComp.v).  Common setting (the Section): ANY call list
+   pre ++ OFlush :: post run from the start; s = the writer when that flush returned (flush
+   does not touch the block stream: w_out s is what the top layer had been handed); the calls
+   BEFORE the flush clean, with arguments as the types guarantee.  Nothing is asked of
+   `post`.  `appended id w_init pre` = the bytes appended to file id before the flush.
+   ==================================================================================== *)
+From MLA Require Import EncAuth RepairMask ComposeFlushAt CompFailSafeSticky FsCompStream ComposeFsComp ComposeFlushComp.
+
+Section C14_flush_at_any_position.
+  Variables FNMAX CACHE : N.
+  Hypothesis HFN : FNMAX < 2 ^ 64.
+  Hypothesis HCACHE : 0 < CACHE.
+  Variables TS TC TA TE : N.
+  Hypothesis Htags : TS <> TC /\ TS <> TA /\ TS <> TE /\ TC <> TA /\ TC <> TE /\ TA <> TE.
+  Variable H : bytes -> bytes.
+  Hypothesis H_len : forall x, len (H x) = 32.
+  Variable order : footer -> footer.
+  Variables (pre post : list wop) (sfin : wstate) (rsall : list (res N)).
+  Hypothesis Hrun : wrun FNMAX TS TC TA TE H order w_init (pre ++ OFlush :: post) = (sfin, rsall).
+  Let s : wstate := fst (wrun FNMAX TS TC TA TE H order w_init pre).
+  Hypothesis Hclean : Forall (fun x => clean (fst x) (snd x)) (combine pre rsall).
+  Hypothesis Hops : Forall op_ok pre.
+  Hypothesis Hnext : w_next s < 2 ^ 64.
+
+  (* the flush itself returns Ok, and what had been handed down stays a prefix of the final
+     block stream *)
+  Theorem C14_flush_returned :
+    nth_error rsall (length pre) = Some (Ok 0) /\ prefix (w_out s) (w_out sfin).
+  Proof. exact (flush_returned_ok FNMAX TS TC TA TE H order pre post sfin rsall Hrun). Qed.
+
+  (* NO LAYER: the destination holds w_out s; read through any source that behaves as a
+     read-only cursor over it.  Every started name holds EXACTLY what was appended *)
+  Theorem C14_flush_durable_plain :
+    forall (S : Stream) (I : st S -> N -> Prop) (s0 : st S) (fuel : nat),
+      RdRefines (rd S) (w_out s) I -> I s0 0 -> (N.to_nat (len (w_out s)) < fuel)%nat ->
+      exists bl out obl,
+        w_out s = body TS TC TA TE bl /\ wf_blocks FNMAX H bl /\ w_files s = name_list (files_of bl) /\
+        repair FNMAX CACHE TS TC TA TE H S fuel s0 w_init
+          = Ok (FEofNextBlock, unfinished_of (files_of bl), out) /\
+        good_output FNMAX TS TC TA TE H out obl /\ Forall2 same (files_of bl) (files_of obl) /\
+        forall name id, In (name, id) (w_files s) ->
+          content_of (files_of obl) name = appended FNMAX TS TC TA TE H order id w_init pre.
+  Proof.
+    exact (flush_at_plain FNMAX CACHE HFN HCACHE TS TC TA TE Htags H H_len order pre post sfin rsall
+             Hrun Hclean Hops Hnext).
+  Qed.
+
+  (* ---- encryption (no compression): w_out s went through the encryption writer in ANY
+     pieces; the destination holds ew_out es; read through any Seekable source ---- *)
+  Section Enc.
+    Variables CHUNK TAG CIPHERBUF : N.
+    Hypothesis HCHUNK : 0 < CHUNK.
+    Hypothesis HTAG : 0 < TAG.
+    Variable ks : N -> N -> N.
+    Variable tagc : N -> bytes -> bytes.
+    Hypothesis Htagc : forall i c, len (tagc i c) = TAG.
+    Variables (pieces : list bytes) (fuelw : nat) (es : ewstate).
+    Hypothesis Hpieces : concat pieces = w_out s.
+    Hypothesis Hew : ew_write_pieces CHUNK CIPHERBUF ks tagc fuelw ew_init pieces = Ok es.
+    Hypothesis Hbigp : len (w_out s) / CHUNK < 2 ^ 32.
+    Hypothesis Hbig : len (ew_out es) / (CHUNK + TAG) + 2 <= 2 ^ 32.
+    Variable Sin : Stream.
+    Variable Rin : st Sin -> N -> Prop.
+    Hypothesis Hin : Seekable Sin (ew_out es) Rin.
+    Variable i0 : st Sin.
+    Hypothesis Hi0 : Rin i0 0.
+
+    (* DataEvenUnauthenticated: EXACTLY what was appended *)
+    Theorem C14_flush_durable_enc :
+      forall fuel : nat, (N.to_nat (len (w_out s)) < fuel)%nat ->
+      exists e0 b, fs_open CHUNK TAG ks Sin i0 = (e0, Ok b) /\
+      exists bl out obl,
+        w_out s = body TS TC TA TE bl /\ wf_blocks FNMAX H bl /\ w_files s = name_list (files_of bl) /\
+        repair FNMAX CACHE TS TC TA TE H (FsEnc CHUNK TAG ks tagc true Sin) fuel e0 w_init
+          = Ok (FEofNextBlock, unfinished_of (files_of bl), out) /\
+        good_output FNMAX TS TC TA TE H out obl /\ Forall2 same (files_of bl) (files_of obl) /\
+        forall name id, In (name, id) (w_files s) ->
+          content_of (files_of obl) name = appended FNMAX TS TC TA TE H order id w_init pre.
+    Proof.
+      exact (flush_at_enc FNMAX CACHE HFN HCACHE TS TC TA TE Htags H H_len order pre post sfin rsall
+               Hrun Hclean Hops Hnext CHUNK TAG CIPHERBUF HCHUNK HTAG ks tagc Htagc pieces fuelw es
+               Hpieces Hew Hbigp Hbig Sin Rin Hin i0 Hi0).
+    Qed.
+
+    (* authenticated mode: EXACTLY the content bytes in the first m bytes of the block stream,
+       m covering every completed encryption chunk (and all of chunk 0, D2) *)
+    Theorem C14_flush_durable_enc_auth :
+      forall fuel : nat, (N.to_nat (len (w_out s)) < fuel)%nat ->
+      exists e0 b, fs_open CHUNK TAG ks Sin i0 = (e0, Ok b) /\
+      exists m bl status unfinished out obl,
+        ew_ctr es * CHUNK <= m /\ m <= len (w_out s) /\ (ew_ctr es = 0 -> m = len (w_out s)) /\
+        w_out s = body TS TC TA TE bl /\ wf_blocks FNMAX H bl /\ w_files s = name_list (files_of bl) /\
+        repair FNMAX CACHE TS TC TA TE H (FsEnc CHUNK TAG ks tagc false Sin) fuel e0 w_init
+          = Ok (status, unfinished, out) /\
+        good_output FNMAX TS TC TA TE H out obl /\
+        (forall f, In f (files_of bl) -> content_of (files_of obl) (f_name f) = present (f_id f) bl m) /\
+        (forall id, data_of_id (files_of bl) id = appended FNMAX TS TC TA TE H order id w_init pre).
+    Proof.
+      exact (flush_at_enc_auth FNMAX CACHE HFN HCACHE TS TC TA TE Htags H H_len order pre post sfin rsall
+               Hrun Hclean Hops Hnext CHUNK TAG CIPHERBUF HCHUNK HTAG ks tagc Htagc pieces fuelw es
+               Hpieces Hew Hbigp Hbig Sin Rin Hin i0 Hi0).
+    Qed.
+  End Enc.
+
+  (* ---- compression: the layer below the compression layer had received w ⊑ wire_of tail bs
+     when the flush returned; premise Hflush = the encoder side of flush; decoder: any dstep
+     under the DecoderLaws.  The stopping status is left open (the decompressor ends a cut
+     stream with an error inside a brotli stream) ---- *)
+  Section Comp.
+    Variables BLOCK FSBUF : N.
+    Hypothesis HFSBUF : 0 < FSBUF.
+    Hypothesis HBLOCK32 : BLOCK < 2 ^ 32.
+    Variable dstate : Type.
+    Variable dinit : dstate.
+    Variable dstep : dstate -> bytes -> N -> dresult * N * bytes * dstate.
+    Variable D : bytes -> bytes.
+    Variable fin : bytes -> bool.
+    Hypothesis L : DecoderLaws dinit dstep D fin.
+    Variable tail : bytes.
+    Hypothesis Htail : dead D fin tail.
+    Variable bs : list (bytes * bytes).
+    Hypothesis Hbs : Forall (good_block BLOCK D fin) bs.
+    Variable w : bytes.
+    Hypothesis Hw : prefix w (wire_of tail bs).
+    Hypothesis Hflush : fs_spec D bs w = w_out s.
+    Variable pfuel : nat.
+    Hypothesis Hpf : (N.to_nat (2 * len w + 1) < pfuel)%nat.
+
+    (* COMPRESSION ONLY: the destination holds w; any source delivering it in order *)
+    Theorem C14_flush_durable_comp :
+      forall (Sin : Stream) (Rin : st Sin -> N -> Prop) (i0 : st Sin) (fuel : nat),
+        SrcRefines Sin w Rin -> Rin i0 0 -> (N.to_nat (len (w_out s)) < fuel)%nat ->
+        exists bl status out obl,
+          w_out s = body TS TC TA TE bl /\ wf_blocks FNMAX H bl /\ w_files s = name_list (files_of bl) /\
+          repair FNMAX CACHE TS TC TA TE H (FsComp BLOCK FSBUF dstate dinit dstep pfuel Sin) fuel (FReady i0) w_init
+            = Ok (status, unfinished_of (files_of bl), out) /\
+          good_output FNMAX TS TC TA TE H out obl /\ Forall2 same (files_of bl) (files_of obl) /\
+          forall name id, In (name, id) (w_files s) ->
+            content_of (files_of obl) name = appended FNMAX TS TC TA TE H order id w_init pre.
+    Proof.
+      exact (flush_at_comp FNMAX CACHE HFN HCACHE TS TC TA TE Htags H H_len order pre post sfin rsall
+               Hrun Hclean Hops Hnext BLOCK FSBUF HFSBUF HBLOCK32 dstate dinit dstep D fin L tail Htail
+               bs Hbs w Hw Hflush pfuel Hpf).
+    Qed.
+
+    (* COMPRESSION OVER ENCRYPTION: w went through the encryption writer in any pieces *)
+    Section CompEnc.
+      Variables CHUNK TAG CIPHERBUF : N.
+      Hypothesis HCHUNK : 0 < CHUNK.
+      Hypothesis HTAG : 0 < TAG.
+      Variable ks : N -> N -> N.
+      Variable tagc : N -> bytes -> bytes.
+      Hypothesis Htagc : forall i c, len (tagc i c) = TAG.
+      Variables (pieces : list bytes) (fuelw : nat) (es : ewstate).
+      Hypothesis Hpieces : concat pieces = w.
+      Hypothesis Hew : ew_write_pieces CHUNK CIPHERBUF ks tagc fuelw ew_init pieces = Ok es.
+      Hypothesis Hbigp : len w / CHUNK < 2 ^ 32.
+      Hypothesis Hbig : len (ew_out es) / (CHUNK + TAG) + 2 <= 2 ^ 32.
+      Variable Sin : Stream.
+      Variable Rin : st Sin -> N -> Prop.
+      Hypothesis Hin : Seekable Sin (ew_out es) Rin.
+      Variable i0 : st Sin.
+      Hypothesis Hi0 : Rin i0 0.
+
+      Theorem C14_flush_durable_comp_enc :
+        forall fuel : nat, (N.to_nat (len (w_out s)) < fuel)%nat ->
+        exists e0 b, fs_open CHUNK TAG ks Sin i0 = (e0, Ok b) /\
+        exists bl status out obl,
+          w_out s = body TS TC TA TE bl /\ wf_blocks FNMAX H bl /\ w_files s = name_list (files_of bl) /\
+          repair FNMAX CACHE TS TC TA TE H
+                 (FsComp BLOCK FSBUF dstate dinit dstep pfuel (FsEnc CHUNK TAG ks tagc true Sin)) fuel
+                 (@FReady dstate (FsEnc CHUNK TAG ks tagc true Sin) e0) w_init
+            = Ok (status, unfinished_of (files_of bl), out) /\
+          good_output FNMAX TS TC TA TE H out obl /\ Forall2 same (files_of bl) (files_of obl) /\
+          forall name id, In (name, id) (w_files s) ->
+            content_of (files_of obl) name = appended FNMAX TS TC TA TE H order id w_init pre.
+      Proof.
+        exact (flush_at_comp_enc FNMAX CACHE HFN HCACHE TS TC TA TE Htags H H_len order pre post sfin rsall
+                 Hrun Hclean Hops Hnext BLOCK FSBUF HFSBUF HBLOCK32 dstate dinit dstep D fin L tail Htail
+                 bs Hbs w Hw Hflush pfuel Hpf CHUNK TAG CIPHERBUF HCHUNK HTAG ks tagc Htagc pieces fuelw es
+                 Hpieces Hew Hbigp Hbig Sin Rin Hin i0 Hi0).
+      Qed.
+
+      (* authenticated mode: EXACTLY the content bytes in the first k bytes of the block
+         stream, k = what the decompressor makes of the first m bytes of w, m covering every
+         completed encryption chunk *)
+      Theorem C14_flush_durable_comp_enc_auth :
+        forall fuel : nat, (N.to_nat (len (w_out s)) < fuel)%nat ->
+        exists e0 b, fs_open CHUNK TAG ks Sin i0 = (e0, Ok b) /\
+        exists m k bl status unfinished out obl,
+          ew_ctr es * CHUNK <= m /\ m <= len w /\ (ew_ctr es = 0 -> m = len w) /\
+          k = len (fs_spec D bs (takeN m w)) /\ k <= len (w_out s) /\
+          w_out s = body TS TC TA TE bl /\ wf_blocks FNMAX H bl /\ w_files s = name_list (files_of bl) /\
+          repair FNMAX CACHE TS TC TA TE H
+                 (FsComp BLOCK FSBUF dstate dinit dstep pfuel (FsEnc CHUNK TAG ks tagc false Sin)) fuel
+                 (@FReady dstate (FsEnc CHUNK TAG ks tagc false Sin) e0) w_init
+            = Ok (status, unfinished, out) /\
+          good_output FNMAX TS TC TA TE H out obl /\
+          (forall f, In f (files_of bl) -> content_of (files_of obl) (f_name f) = present (f_id f) bl k) /\
+          (forall id, data_of_id (files_of bl) id = appended FNMAX TS TC TA TE H order id w_init pre).
+      Proof.
+        exact (flush_at_comp_enc_auth FNMAX CACHE HFN HCACHE TS TC TA TE Htags H H_len order pre post sfin rsall
+                 Hrun Hclean Hops Hnext BLOCK FSBUF HFSBUF HBLOCK32 dstate dinit dstep D fin L tail Htail
+                 bs Hbs w Hw Hflush pfuel Hpf CHUNK TAG CIPHERBUF HCHUNK HTAG ks tagc Htagc pieces fuelw es
+                 Hpieces Hew Hbigp Hbig Sin Rin Hin i0 Hi0).
+      Qed.
+    End CompEnc.
+  End Comp.
+End C14_flush_at_any_position.
+
+(* the premise Hflush from the shape of C14_fs_comp_flush: complete blocks b1, then the bytes
+   c' the encoder of the current block had emitted *)
+Theorem C14_flush_premise_from_blocks :
+  forall (dstate : Type) (dinit : dstate) dstep D fin, DecoderLaws dinit dstep D fin ->
+  forall b1 c p b2 c', len c' < len c ->
+    fs_spec D (b1 ++ (c, p) :: b2) (concat (map fst b1) ++ c') = plain_of b1 ++ D c'.
+Proof. exact @fs_spec_flush_point. Qed.
+
+(* the two facts behind the compressed combinations: over the decompressor the repair loop
+   recovers exactly what it recovers over a cursor on the decompressor's total output ... *)
+Theorem C14_repair_over_decompressor :
+  forall BLOCK FSBUF : N, 0 < FSBUF -> BLOCK < 2 ^ 32 ->
+  forall (dstate : Type) (dinit : dstate) dstep D fin, DecoderLaws dinit dstep D fin ->
+  forall tail, dead D fin tail ->
+  forall (Sin : Stream) (w : bytes) (Rin : st Sin -> N -> Prop), SrcRefines Sin w Rin ->
+  forall bs, Forall (good_block BLOCK D fin) bs -> prefix w (wire_of tail bs) ->
+  forall pfuel : nat, (N.to_nat (2 * len w + 1) < pfuel)%nat ->
+  forall FNMAX CACHE : N, FNMAX < 2 ^ 64 -> 0 < CACHE ->
+  forall TS TC TA TE : N,
+    TS <> TC /\ TS <> TA /\ TS <> TE /\ TC <> TA /\ TC <> TE /\ TA <> TE ->
+  forall H : bytes -> bytes, (forall x, len (H x) = 32) ->
+  forall bl trailer i0 fuel,
+    wf_blocks FNMAX H bl -> In BEnd bl \/ trailer = [] ->
+    prefix (fs_spec D bs w) (body TS TC TA TE bl ++ trailer) ->
+    Rin i0 0 -> (N.to_nat (len (fs_spec D bs w)) < fuel)%nat ->
+    exists status out obl,
+      repair FNMAX CACHE TS TC TA TE H (FsComp BLOCK FSBUF dstate dinit dstep pfuel Sin) fuel (FReady i0) w_init
+        = Ok (status, unfinished_of (recovered bl (len (fs_spec D bs w))), out) /\
+      good_output FNMAX TS TC TA TE H out obl /\
+      Forall2 same (recovered bl (len (fs_spec D bs w))) (files_of obl).
+Proof. exact repair_fscomp_exact. Qed.
+
+(* ... and a source whose first error is replaced by an eternal Ok(0) (the ghost stream
+   RepairMask.Mask) gives the same output archive and unfinished list *)
+Theorem C14_repair_error_ending_source :
+  forall (S : Stream) (FNMAX CACHE TS TC TA TE : N) (H : bytes -> bytes) fuel s0 out0 status' unfinished out,
+    repair FNMAX CACHE TS TC TA TE H (Mask S) fuel (Some s0) out0 = Ok (status', unfinished, out) ->
+    exists status, repair FNMAX CACHE TS TC TA TE H S fuel s0 out0 = Ok (status, unfinished, out).
+Proof. exact repair_mask. Qed.
+
+Print Assumptions C14_flush_returned.
+Print Assumptions C14_flush_durable_plain.
+Print Assumptions C14_flush_durable_enc.
+Print Assumptions C14_flush_durable_enc_auth.
+Print Assumptions C14_flush_durable_comp.
+Print Assumptions C14_flush_durable_comp_enc.
+Print Assumptions C14_flush_durable_comp_enc_auth.
+Print Assumptions C14_flush_premise_from_blocks.
+Print Assumptions C14_repair_over_decompressor.
+Print Assumptions C14_repair_error_ending_source.
+
+(* ---------- non-vacuity of part 4 ----------
+   the calls of C14_example_flush_then_repair up to the flush (two files open, 70 + 2 bytes
+   appended, one empty and one refused append), then the flush, then more calls (an append,
+   an end_file, finalize) of which nothing is asked *)
+Definition ex_pre : list wop :=
+  [OStart [97]; OAppend 0 70 (map N.of_nat (seq 0 70)); OStart [98]; OAppend 1 2 [7; 8]; OAppend 0 0 [];
+   OAppend 5 1 [1]].
+Definition ex_post : list wop := [OAppend 0 3 [5; 5; 5]; OEnd 0; OFinalize].
+Definition ex_all := wrun 48 0 1 254 255 ex_H (fun f => f) w_init (ex_pre ++ OFlush :: ex_post).
+Definition ex_s : wstate := fst (wrun 48 0 1 254 255 ex_H (fun f => f) w_init ex_pre).
+Lemma ex_all_run : wrun 48 0 1 254 255 ex_H (fun f => f) w_init (ex_pre ++ OFlush :: ex_post) = (fst ex_all, snd ex_all).
+Proof. unfold ex_all. apply surjective_pairing. Qed.
+Lemma ex_pre_clean : Forall (fun x => clean (fst x) (snd x)) (combine ex_pre (snd ex_all)).
+Proof. vm_compute. repeat constructor; cbn; discriminate. Qed.
+Lemma ex_pre_ok : Forall op_ok ex_pre.
+Proof. repeat constructor; cbn; lia. Qed.
+Lemma ex_s_next : w_next ex_s < 2 ^ 64.
+Proof. vm_compute. reflexivity. Qed.
+
+(* no layer, the destination read 3 bytes at a time: 142 bytes of block stream, both files
+   recovered exactly, both reported unfinished *)
+Example C14_example_flush_at_plain :
+  len (w_out ex_s) = 142 /\ len (w_out (fst ex_all)) > 142 /\
+  exists bl out obl,
+    repair 48 4 0 1 254 255 ex_H (Throttled (w_out ex_s)) 300 (0, [3]) w_init
+      = Ok (FEofNextBlock, unfinished_of (files_of bl), out) /\
+    good_output 48 0 1 254 255 ex_H out obl /\
+    content_of (files_of obl) [97] = map N.of_nat (seq 0 70) /\
+    content_of (files_of obl) [98] = [7; 8].
+Proof.
+  split; [vm_compute; reflexivity|]. split; [vm_compute; reflexivity|].
+  destruct (C14_flush_durable_plain 48 4 ltac:(lia) ltac:(lia) 0 1 254 255
+              ltac:(repeat split; discriminate) ex_H ex_H_len (fun f => f) ex_pre ex_post (fst ex_all) (snd ex_all)
+              ex_all_run ex_pre_clean ex_pre_ok ex_s_next
+              (Throttled (w_out ex_s)) (fun st p => fst st = p /\ p <= len (w_out ex_s)) (0, [3]) 300%nat
+              (fun st q n HI => ref_rd _ _ _ (throttled_refines (w_out ex_s)) st q n HI)
+              (conj eq_refl (N.le_0_l _)) ltac:(vm_compute; lia))
+    as (bl & out & obl & Hout & Hwf & Hfiles & Hr & Hg & Hs & Hc).
+  exists bl, out, obl. split; [exact Hr|]. split; [exact Hg|]. split.
+  - rewrite (Hc [97] 0) by (vm_compute; auto). vm_compute. reflexivity.
+  - rewrite (Hc [98] 1) by (vm_compute; auto). vm_compute. reflexivity.
+Qed.
+
+(* compression (toy codec of CompFailSafeToy.v, BLOCK = 64, FSBUF = 32): the 142 bytes are two
+   complete compressed blocks and 14 bytes of a third one, whose encoder had emitted its
+   header and these 14 bytes when the flush returned *)
+Definition ex_p0 : bytes := takeN 64 (w_out ex_s).
+Definition ex_p1 : bytes := sliceN 64 64 (w_out ex_s).
+Definition ex_written : bytes := dropN 128 (w_out ex_s).
+Definition ex_p2 : bytes := ex_written ++ [5; 5; 5].
+Definition ex_cbs : list (bytes * bytes) := [(tcomp ex_p0, ex_p0); (tcomp ex_p1, ex_p1); (tcomp ex_p2, ex_p2)].
+Definition ex_cw : bytes := tcomp ex_p0 ++ tcomp ex_p1 ++ (len ex_p2 :: ex_written).
+Lemma ex_cbs_good : Forall (good_block 64 tD tfin) ex_cbs.
+Proof. repeat constructor; (vm_compute; reflexivity) || (vm_compute; discriminate). Qed.
+Lemma ex_cw_prefix : prefix ex_cw (wire_of fsx_tail ex_cbs).
+Proof. exists ([5; 5; 5] ++ fsx_tail). vm_compute. reflexivity. Qed.
+Lemma ex_cw_flush : fs_spec tD ex_cbs ex_cw = w_out ex_s.
+Proof.
+  (* from the shape of C14_fs_comp_flush: D c' = written *)
+  change ex_cbs with ([(tcomp ex_p0, ex_p0); (tcomp ex_p1, ex_p1)] ++ (tcomp ex_p2, ex_p2) :: []).
+  change ex_cw with (concat (map fst [(tcomp ex_p0, ex_p0); (tcomp ex_p1, ex_p1)]) ++ (len ex_p2 :: ex_written)).
+  rewrite (C14_flush_premise_from_blocks tstate tinit tstep tD tfin toy_laws) by (vm_compute; reflexivity).
+  vm_compute. reflexivity.
+Qed.
+
+Example C14_example_flush_at_comp :
+  exists bl status out obl,
+    repair 48 4 0 1 254 255 ex_H (FsComp 64 32 tstate tinit tstep 400 (Throttled ex_cw)) 400
+           (@FReady tstate (Throttled ex_cw) (0, [3])) w_init
+      = Ok (status, unfinished_of (files_of bl), out) /\
+    good_output 48 0 1 254 255 ex_H out obl /\
+    content_of (files_of obl) [97] = map N.of_nat (seq 0 70) /\
+    content_of (files_of obl) [98] = [7; 8].
+Proof.
+  destruct (C14_flush_durable_comp 48 4 ltac:(lia) ltac:(lia) 0 1 254 255
+              ltac:(repeat split; discriminate) ex_H ex_H_len (fun f => f) ex_pre ex_post (fst ex_all) (snd ex_all)
+              ex_all_run ex_pre_clean ex_pre_ok ex_s_next
+              64 32 ltac:(lia) ltac:(lia) tstate tinit tstep tD tfin toy_laws fsx_tail fsx_dead
+              ex_cbs ex_cbs_good ex_cw ex_cw_prefix ex_cw_flush 400%nat ltac:(vm_compute; lia)
+              (Throttled ex_cw) (fun st p => fst st = p /\ p <= len ex_cw) (0, [3]) 400%nat
+              (throttled_src ex_cw) (conj eq_refl (N.le_0_l _)) ltac:(vm_compute; lia))
+    as (bl & status & out & obl & Hout & Hwf & Hfiles & Hr & Hg & Hs & Hc).
+  exists bl, status, out, obl. split; [exact Hr|]. split; [exact Hg|]. split.
+  - rewrite (Hc [97] 0) by (vm_compute; auto). vm_compute. reflexivity.
+  - rewrite (Hc [98] 1) by (vm_compute; auto). vm_compute. reflexivity.
+Qed.
+
+(* compression over encryption (CHUNK = 64, TAG = 16, CIPHERBUF = 24): the 145 compressed
+   bytes through the encryption writer in two pieces; the current chunk has no tag yet *)
+Definition ex_ces : ewstate :=
+  match ew_write_pieces 64 24 toy_ks (toy_tag 16) 300 ew_init [takeN 30 ex_cw; dropN 30 ex_cw] with
+  | Ok es => es | _ => ew_init end.
+Lemma ex_ces_ok : ew_write_pieces 64 24 toy_ks (toy_tag 16) 300 ew_init [takeN 30 ex_cw; dropN 30 ex_cw] = Ok ex_ces.
+Proof. vm_compute. reflexivity. Qed.
+
+Example C14_example_flush_at_comp_enc :
+  ew_ctr ex_ces = 2 /\ len (ew_out ex_ces) = 145 + 2 * 16 /\
+  exists e0 b bl status out obl,
+    fs_open 64 16 toy_ks (Cursor (ew_out ex_ces)) 0 = (e0, Ok b) /\
+    repair 48 4 0 1 254 255 ex_H
+           (FsComp 64 32 tstate tinit tstep 400 (FsEnc 64 16 toy_ks (toy_tag 16) true (Cursor (ew_out ex_ces)))) 400
+           (@FReady tstate (FsEnc 64 16 toy_ks (toy_tag 16) true (Cursor (ew_out ex_ces))) e0) w_init
+      = Ok (status, unfinished_of (files_of bl), out) /\
+    good_output 48 0 1 254 255 ex_H out obl /\
+    content_of (files_of obl) [97] = map N.of_nat (seq 0 70) /\
+    content_of (files_of obl) [98] = [7; 8].
+Proof.
+  split; [vm_compute; reflexivity|]. split; [vm_compute; reflexivity|].
+  destruct (C14_flush_durable_comp_enc 48 4 ltac:(lia) ltac:(lia) 0 1 254 255
+              ltac:(repeat split; discriminate) ex_H ex_H_len (fun f => f) ex_pre ex_post (fst ex_all) (snd ex_all)
+              ex_all_run ex_pre_clean ex_pre_ok ex_s_next
+              64 32 ltac:(lia) ltac:(lia) tstate tinit tstep tD tfin toy_laws fsx_tail fsx_dead
+              ex_cbs ex_cbs_good ex_cw ex_cw_prefix ex_cw_flush 400%nat ltac:(vm_compute; lia)
+              64 16 24 ltac:(lia) ltac:(lia) toy_ks (toy_tag 16) (len_toy_tag 16)
+              [takeN 30 ex_cw; dropN 30 ex_cw] 300%nat ex_ces ltac:(vm_compute; reflexivity) ex_ces_ok
+              ltac:(vm_compute; reflexivity) ltac:(vm_compute; discriminate)
+              (Cursor (ew_out ex_ces)) (fun st p => st = p) (cursor_seekable _) 0 eq_refl
+              400%nat ltac:(vm_compute; lia))
+    as (e0 & b & Ho & bl & status & out & obl & Hout & Hwf & Hfiles & Hr & Hg & Hs & Hc).
+  exists e0, b, bl, status, out, obl. split; [exact Ho|]. split; [exact Hr|]. split; [exact Hg|]. split.
+  - rewrite (Hc [97] 0) by (vm_compute; auto). vm_compute. reflexivity.
+  - rewrite (Hc [98] 1) by (vm_compute; auto). vm_compute. reflexivity.
+Qed.
+
+(* the same in authenticated mode: the two completed chunks (128 compressed bytes) *)
+Example C14_example_flush_at_comp_enc_auth :
+  exists e0 b m k status unfinished out obl,
+    fs_open 64 16 toy_ks (Cursor (ew_out ex_ces)) 0 = (e0, Ok b) /\
+    128 <= m /\ m <= 145 /\ k = len (fs_spec tD ex_cbs (takeN m ex_cw)) /\
+    repair 48 4 0 1 254 255 ex_H
+           (FsComp 64 32 tstate tinit tstep 400 (FsEnc 64 16 toy_ks (toy_tag 16) false (Cursor (ew_out ex_ces)))) 400
+           (@FReady tstate (FsEnc 64 16 toy_ks (toy_tag 16) false (Cursor (ew_out ex_ces))) e0) w_init
+      = Ok (status, unfinished, out) /\
+    good_output 48 0 1 254 255 ex_H out obl.
+Proof.
+  destruct (C14_flush_durable_comp_enc_auth 48 4 ltac:(lia) ltac:(lia) 0 1 254 255
+              ltac:(repeat split; discriminate) ex_H ex_H_len (fun f => f) ex_pre ex_post (fst ex_all) (snd ex_all)
+              ex_all_run ex_pre_clean ex_pre_ok ex_s_next
+              64 32 ltac:(lia) ltac:(lia) tstate tinit tstep tD tfin toy_laws fsx_tail fsx_dead
+              ex_cbs ex_cbs_good ex_cw ex_cw_prefix ex_cw_flush 400%nat ltac:(vm_compute; lia)
+              64 16 24 ltac:(lia) ltac:(lia) toy_ks (toy_tag 16) (len_toy_tag 16)
+              [takeN 30 ex_cw; dropN 30 ex_cw] 300%nat ex_ces ltac:(vm_compute; reflexivity) ex_ces_ok
+              ltac:(vm_compute; reflexivity) ltac:(vm_compute; discriminate)
+              (Cursor (ew_out ex_ces)) (fun st p => st = p) (cursor_seekable _) 0 eq_refl
+              400%nat ltac:(vm_compute; lia))
+    as (e0 & b & Ho & m & k & bl & status & unf & out & obl & B1 & B2 & B3 & Hk & Hkl & Hout & Hwf & Hfiles & Hr & Hg & Hc & Hd).
+  exists e0, b, m, k, status, unf, out, obl. split; [exact Ho|].
+  assert (E1 : ew_ctr ex_ces * 64 = 128) by (vm_compute; reflexivity).
+  assert (E2 : len ex_cw = 145) by (vm_compute; reflexivity).
+  rewrite E1 in B1. rewrite E2 in B2.
+  split; [exact B1|]. split; [exact B2|]. split; [exact Hk|]. split; [exact Hr | exact Hg].
+Qed.
+
+(* what the authenticated run actually yields: both files started, "a" complete (70 bytes lie
+   in the 126 bytes the decompressor makes of 128 compressed bytes), nothing of "b" *)
+Example C14_example_comp_enc_auth_values :
+  let '(e0, _) := fs_open 64 16 toy_ks (Cursor (ew_out ex_ces)) 0 in
+  match repair 48 4 0 1 254 255 ex_H
+          (FsComp 64 32 tstate tinit tstep 400 (FsEnc 64 16 toy_ks (toy_tag 16) false (Cursor (ew_out ex_ces)))) 400
+          (@FReady tstate (FsEnc 64 16 toy_ks (toy_tag 16) false (Cursor (ew_out ex_ces))) e0) w_init with
+  | Ok (status, unfinished, out) =>
+      status = FEofNextBlock /\ unfinished = [[97]; [98]] /\ w_files out = [([97], 0); ([98], 1)] /\
+      len (fs_spec tD ex_cbs (takeN 128 ex_cw)) = 126
+  | _ => False
+  end.
+Proof. vm_compute. repeat split; reflexivity. Qed.
+
+(* a cut INSIDE a content block of a compressed stream (100 of the 145 bytes): the
+   decompressor ends with UnexpectedEof inside a brotli stream, the loop reports ErrorInFile —
+   and the output holds what the cursor run would hold (C14_repair_over_decompressor) *)
+Example C14_example_repair_over_decompressor :
+  match repair 48 4 0 1 254 255 ex_H (FsComp 64 32 tstate tinit tstep 400 (Throttled (takeN 100 ex_cw))) 400
+          (@FReady tstate (Throttled (takeN 100 ex_cw)) (0, [3])) w_init,
+        repair 48 4 0 1 254 255 ex_H (Cursor (fs_spec tD ex_cbs (takeN 100 ex_cw))) 400 0 w_init with
+  | Ok (status, unfinished, out), Ok (status', unfinished', out') =>
+      status = FErrInFile /\ status' = FEofNextBlock /\ unfinished = unfinished' /\ out = out' /\
+      unfinished = [[97]] /\ len (fs_spec tD ex_cbs (takeN 100 ex_cw)) = 98
+  | _, _ => False
+  end.
+Proof. vm_compute. repeat split; reflexivity. Qed.
+
+Print Assumptions C14_example_flush_at_plain.
+Print Assumptions C14_example_flush_at_comp.
+Print Assumptions C14_example_flush_at_comp_enc.
+Print Assumptions C14_example_flush_at_comp_enc_auth.
+Print Assumptions C14_example_comp_enc_auth_values.
+Print Assumptions C14_example_repair_over_decompressor.
